@@ -104,6 +104,7 @@ _MODULES = [
     "behavior",
     "advertising",
     "misc",
+    "mixed_and_faults",
     "derived",  # last: builds on the builders above
 ]
 
